@@ -10,7 +10,9 @@ use crate::parser;
 use crate::parser::InstructionProperties;
 use crate::parser::LabelStringToken;
 use crate::parser::ParserNode;
-use crate::parser::{DirectiveType, Register, RegisterToken};
+use crate::parser::{
+    DirectiveType, HasRegisterSets, Register, RegisterToken, Token, TokenType, With,
+};
 use crate::passes::CfgError;
 use crate::passes::DiagnosticLocation;
 use std::collections::HashSet;
@@ -328,9 +330,28 @@ impl Cfg {
                 }
                 continue;
             }
+            // A call reads the arguments of its callee and an ecall those of
+            // its service without naming them: the register is live into the
+            // instruction although it does not survive it. The instruction
+            // itself is the place of such a read.
+            if (next.calls_to().is_some() || next.is_ecall())
+                && Register::caller_saved_set().contains(&item)
+                && next.live_in().contains(&item)
+            {
+                ranges.push(With::new(
+                    item,
+                    Token::new(
+                        TokenType::Symbol(next.raw_text()),
+                        next.raw_text(),
+                        next.range(),
+                        next.file(),
+                    ),
+                ));
+                continue;
+            }
             // Behind a new value for the register, reads are not reads of the
             // value in question
-            if next.kill_reg().contains(&item) {
+            if next.kill_reg().contains(&item) || next.is_ecall() {
                 continue;
             }
 
